@@ -369,7 +369,8 @@ static unsigned long pickPgn(Rng &R, int cls, bool &fast) {
 static uint64_t pickOrigin(Rng &R) {
   switch (R.below(6)) {
     case 0: return 0;
-    case 1: return 4294967296ULL - 700 - (uint64_t)R.range(0, 400);       // the 32-bit clock wraps during the case
+    case 1: return R.chance(1, 4) ? 4294967296ULL * (uint64_t)R.range(1, 2) - 700 - (uint64_t)R.range(0, 3)    // first frames AT the wrap instant
+                                  : 4294967296ULL - 700 - (uint64_t)R.range(0, 400);       // the 32-bit clock wraps during the case
     case 2: return 4294967296ULL + (uint64_t)R.range(0, 100000);
     case 3: return 2147483648ULL - 700 - (uint64_t)R.range(0, 300);
     default: return (uint64_t)R.range(0, 5000000);
@@ -411,7 +412,46 @@ static void randomCase(Rng &R, const char *fl, const char *kind, unsigned slots,
     else if (y < 330) tick((uint64_t)R.range(95, 105));
     else if (y < 335) tick((uint64_t)R.pick(std::vector<long long>{2147483546LL, 2147483647LL, 2147483648LL, 4294967196LL, 4294967296LL, 1000LL, 60000LL}));
     else if (y < 350) exec("q");
+    else if (y < 400) {
+      // exact clock values: when a distinguished value of the 32-bit millisecond clock (0 = the wrap instant, 2^31, and their
+      // neighbours) is near, step exactly onto it and let several streams begin a message in that very millisecond
+      uint64_t c32 = g_now & 0xffffffffULL, d31 = (2147483648ULL - (c32 & 0x7fffffffULL)) & 0x7fffffffULL;   // distance to next multiple of 2^31
+      if (d31 <= 3000) {
+        uint64_t d = d31 + (uint64_t)R.pick(std::vector<int>{0, 0, 0, 1}) ;
+        if (d31 > 0 && R.chance(1, 5)) d = d31 - 1;
+        if (d) tick(d);
+        C.count("gen_exact_clock_value");
+        unsigned n = (unsigned)R.range(1, 3);
+        for (unsigned k = 0; k < n; k++) {
+          Stream &z = st[R.below(st.size())];
+          if (!z.pend.empty()) { C.count("fault_cut"); z.pend.clear(); }
+          startMsg(R, z, false); feed(z.pend.front()); z.pend.pop_front();
+        }
+      }
+    }
   }
+  exec("q");
+}
+
+// directed: first frames arriving exactly at distinguished values of the millisecond clock (value V mod 2^32 = 0: the wrap
+// instant; 2^31; and +-1), K <= slots senders interleaved, nothing lost: every message is owed
+static void clockValueCase(Rng &R, const char *fl, unsigned slots, uint64_t V, unsigned lead, int variant) {
+  caseKind = "clock_value";
+  reset(fl, slots, 0, V - 700 - lead);
+  if (lead) tick(lead);
+  unsigned K = std::min(slots, 3u);
+  std::vector<std::vector<GFrame>> m;
+  static const unsigned long PG[] = {129029UL, 129540UL, 127489UL};
+  for (unsigned i = 0; i < K; i++) {
+    std::vector<unsigned char> pl((size_t)R.range(15, 43)); for (auto &c : pl) c = (unsigned char)R.below(256);
+    m.push_back(encode(3, PG[(i + variant) % 3], 30 + i, 255, pl, true, (unsigned)R.below(8), (unsigned)pl.size(), false));
+  }
+  // first frames: the first sender at V, the others in the same millisecond or 1..2 ms later
+  for (unsigned i = 0; i < K; i++) { feed(m[i][0]); if (variant & 1) tick((uint64_t)R.range(0, 2)); }
+  if (variant & 2) { GFrame sf = encode(6, 127250UL, 92, 255, std::vector<unsigned char>(8, 0x22), false, 0, 8, false)[0]; feed(sf); }
+  exec("q");
+  size_t mx = 0; for (auto &x : m) mx = std::max(mx, x.size());
+  for (size_t k = 1; k < mx; k++) for (unsigned i = 0; i < K; i++) if (k < m[i].size()) { feed(m[i][k]); if (R.chance(1, 3)) tick(1); }
   exec("q");
 }
 
@@ -581,6 +621,15 @@ int main(int argc, char **argv) {
         for (uint64_t origin : std::vector<uint64_t>{0, B31 - 700 - 20, B31 - 700 - 5000, B31 - 700 + 50, B32 - 700 - 20, B32 - 700 - 60, B32 - 700 + 20, 2 * B32 - 700 - 18})
           staleBudgetCase(R, fl, slots, origin, wait, v++ % 3);
   }
+  {
+    const uint64_t B31 = 2147483648ULL, B32 = 4294967296ULL;
+    int v = 0;
+    for (unsigned slots = 1; slots <= 8; slots++)
+      for (uint64_t V : std::vector<uint64_t>{B32, 2 * B32, B32 - 1, B32 + 1, B31, B31 - 1, 3 * B31})
+        for (unsigned lead : std::vector<unsigned>{0, 1, 9})
+          clockValueCase(R, fl, slots, V, lead, v++);
+  }
+  C.sample("directed: first frames exactly at clock value 0 (2^32 and 2*2^32 wrap instants), 2^32-1, 2^32+1, 2^31, 2^31-1, 3*2^31; up to 3 interleaved senders <= slots, node opened 700/701/709 ms earlier; slots 1..8");
   for (unsigned slots = 1; slots <= 8; slots++)
     for (int v = 0; v < 48; v += (slots <= 3 ? 1 : 5)) tpStaleCase(R, fl, slots, v + (int)slots, (v % 7) == 3 ? 1 : 0);
   C.sample("directed: stale TP session slot (TP.CM RTS/BAM announcing P from S, no data packets) then fast packets of P from S (sequence id 0 first) and from others; 126996/126998/126208/129029/130816/126464; slots 1..8; TP slot first or behind a busy slot; unreceivable announce (300 bytes)");
